@@ -129,7 +129,7 @@ def make_app(kind):
 # ---------------------------------------------------------------------------
 # one connection
 
-WALL_CAP = 20.0  # seconds of real time for one delivery (normal: milliseconds)
+WALL_CAP = 10.0  # seconds of real time for one delivery (normal: milliseconds)
 
 
 class _WallWatchdog(KeyboardInterrupt):
